@@ -106,7 +106,10 @@ def pool : List Rule := [
   ⟨"sum-infactor", mul (pv "c") (sum "x" (pv "a")), sum "x" (mul (pv "c") (pv "a")), [], [("x", "c")]⟩,
   ⟨"sum-infactor-f2", mul (pv "c") (sum "f2" (pv "a")), sum "f2" (mul (pv "c") (pv "a")), [], [("f2", "c")]⟩,
   ⟨"sum-infactor-f3", mul (pv "c") (sum "f3" (pv "a")), sum "f3" (mul (pv "c") (pv "a")), [], [("f3", "c")]⟩,
-  ⟨"sum-infactor-f4", mul (pv "c") (sum "f4" (pv "a")), sum "f4" (mul (pv "c") (pv "a")), [], [("f4", "c")]⟩
+  ⟨"sum-infactor-f4", mul (pv "c") (sum "f4" (pv "a")), sum "f4" (mul (pv "c") (pv "a")), [], [("f4", "c")]⟩,
+  -- free pattern slots: `$a` occurs twice on the left, `$b` once (the matcher has to bind them to distinct e-graph slots
+  -- and the two occurrences of `$a` to the same one)
+  ⟨"var-factor", add (mul (var "a") (var "b")) (var "a"), mul (var "a") (add (var "b") (num 1)), [], []⟩
 ]
 
 open P in
